@@ -296,17 +296,17 @@ def subcircuit_cases(draw, tier):
             'uuid_seed': draw(st.integers(0, 2 ** 20))}
 
 
-def check_subcircuit(case):
-    core = cirbo_core()
-    nl = case['nl']
+def plan_replacement(nl, roots_idx, grow_idx, form, label_mode, prefix='rs_'):
+    """Cone grown from chosen gates down to a boundary + an independently synthesised equivalent replacement.
+    Returns None (no cone possible) or a dict."""
     typ = {g[0]: g[1] for g in nl['gates']}
     ops = {g[0]: list(g[2]) for g in nl['gates']}
     non_inputs = [l for l in typ if typ[l] != 'INPUT']
     if not non_inputs:
-        return {'nt': False, 'cls': {'no_gates'}}
-    roots = list(dict.fromkeys(non_inputs[r % len(non_inputs)] for r in case['roots']))
+        return None
+    roots = list(dict.fromkeys(non_inputs[r % len(non_inputs)] for r in roots_idx))
     S = set(roots)
-    for gidx in case['grow']:
+    for gidx in grow_idx:
         frontier = sorted({o for s in S for o in ops[s] if o not in S and typ[o] != 'INPUT'})
         if not frontier:
             break
@@ -314,7 +314,7 @@ def check_subcircuit(case):
     order = [l for l in refsem.own_toposort(nl) if l in S]
     I = list(dict.fromkeys(o for s in order for o in ops[s] if o not in S))
     if len(I) > 5:
-        return {'nt': False, 'cls': {'boundary_too_wide'}}
+        return {'too_wide': True}
     users = collections.defaultdict(list)
     for l in typ:
         for o in ops[l]:
@@ -328,30 +328,40 @@ def check_subcircuit(case):
     k = len(I)
     if k == 0:
         # constant cone: replacement needs no inputs
-        rep = {'inputs': [], 'gates': [[f'rs_o{q}', 'ALWAYS_TRUE' if c & 1 else 'ALWAYS_FALSE', []] for q, c in enumerate(cols)],
-               'outputs': [f'rs_o{q}' for q in range(len(cols))]}
-    elif case['form'] == 'dnf':
+        rep = {'inputs': [], 'gates': [[f'{prefix}o{q}', 'ALWAYS_TRUE' if c & 1 else 'ALWAYS_FALSE', []] for q, c in enumerate(cols)],
+               'outputs': [f'{prefix}o{q}' for q in range(len(cols))]}
+    elif form == 'dnf':
         base = dnf_netlist(k, cols)
-        ren = lambda x: 'rs_' + x
+        ren = lambda x: prefix + x
         rep = {'inputs': [ren(x) for x in base['inputs']], 'gates': [[ren(l), t, [ren(o) for o in op]] for l, t, op in base['gates']],
                'outputs': [ren(x) for x in base['outputs']]}
     else:
-        rep = _reed_muller_netlist(k, cols, 'rs_')
-    if case['label_mode'] == 'same_boundary':
+        rep = _reed_muller_netlist(k, cols, prefix)
+    if label_mode == 'same_boundary':
         m = {**dict(zip(rep['inputs'], I)), **dict(zip(rep['outputs'], need_out))}
-        # need_out may list distinct cone gates; rep outputs are distinct labels, so the map is injective
         rn = lambda x: m.get(x, x)
         rep = {'inputs': [rn(x) for x in rep['inputs']], 'gates': [[rn(l), t, [rn(o) for o in op]] for l, t, op in rep['gates']],
                'outputs': [rn(x) for x in rep['outputs']]}
-    inputs_mapping = dict(zip(I, rep['inputs']))
-    outputs_mapping = dict(zip(need_out, rep['outputs']))
+    downstream = any(refsem.reachable(nl, [i]) & S for i in I)
+    return {'S': S, 'I': I, 'roots': roots, 'need_out': need_out, 'rep': rep, 'k': k,
+            'inputs_mapping': dict(zip(I, rep['inputs'])), 'outputs_mapping': dict(zip(need_out, rep['outputs'])),
+            'boundary_depends_on_cone': downstream}
+
+
+def check_subcircuit(case):
+    core = cirbo_core()
+    nl = case['nl']
+    typ = {g[0]: g[1] for g in nl['gates']}
+    plan = plan_replacement(nl, case['roots'], case['grow'], case['form'], case['label_mode'])
+    if plan is None:
+        return {'nt': False, 'cls': {'no_gates'}}
+    if plan.get('too_wide'):
+        return {'nt': False, 'cls': {'boundary_too_wide'}}
+    S, I, roots, need_out, rep, k = plan['S'], plan['I'], plan['roots'], plan['need_out'], plan['rep'], plan['k']
+    inputs_mapping, outputs_mapping = plan['inputs_mapping'], plan['outputs_mapping']
+    downstream_boundary = plan['boundary_depends_on_cone']
     fault = case['fault']
     applied = 'none'
-    downstream_boundary = False
-    reach_from = {}
-    for i in I:
-        if refsem.reachable(nl, [i]) & S:
-            downstream_boundary = True
     if fault == 'unlisted_fanout':
         extra = [s for s in need_out if s not in roots]
         if extra:
